@@ -171,13 +171,16 @@ def entryTextLen (e : Entry) (wantType flags : Nat) : Nat :=
   (if e.tag = tagUser ∨ e.tag = tagGroup then 1 + idLen e.id else 0) +
   1
 
+/-- The entries the generators print from the list (in list order). -/
+def listed (acl : Acl) (wantType : Nat) : List Entry :=
+  acl.entries.filter (fun e => !skipped e wantType)
+
 /-- `archive_acl_text_len` (0 = nothing to print). -/
 def textLen (acl : Acl) (wantType flags : Nat) : Nat :=
-  let listed := acl.entries.filter (fun e => !skipped e wantType)
-  let body := (listed.map (entryTextLen · wantType flags)).sum
+  let body := ((listed acl wantType).map (entryTextLen · wantType flags)).sum
   if wantType &&& typeAccess ≠ 0 then
     body + (if hasFlag flags styleSolaris then 31 else 32)
-  else if listed.length = 0 then 0 else body
+  else if (listed acl wantType).length = 0 then 0 else body
 
 def str (s : String) : List Ch := s.toList.map Char.toNat
 
@@ -240,24 +243,31 @@ inductive TextResult
   | overrun (t : List Ch)   -- more than `length` characters were written
   deriving DecidableEq, Repr
 
+/-- The text of one listed entry: prefix, and the id handed to `append_entry`
+(`archive_acl_to_text_l`: `name == NULL || EXTRA_ID`; `_w`: `EXTRA_ID` only). -/
+def entryText (wide : Bool) (flags : Nat) (e : Entry) : List Ch :=
+  let pfx := e.type = typeDefault ∧ hasFlag flags styleMarkDefault
+  let id : Int :=
+    if wide then (if hasFlag flags styleExtraId then e.id else -1)
+    else (if e.name = [] ∨ hasFlag flags styleExtraId then e.id else -1)
+  appendEntry wide pfx e.type e.tag flags e.name e.permset id
+
+/-- The three entries made up from `mode`. -/
+def headTexts (wide : Bool) (mode flags : Nat) : List (List Ch) :=
+  [appendEntry wide false typeAccess tagUserObj flags [] (mode &&& 0o700) (-1),
+   appendEntry wide false typeAccess tagGroupObj flags [] (mode &&& 0o070) (-1),
+   appendEntry wide false typeAccess tagOther flags [] (mode &&& 0o007) (-1)]
+
+/-- `separator` -/
+def sepChar (flags : Nat) : Ch := if hasFlag flags styleSeparatorComma then 44 else 10
+
 /-- The characters `archive_acl_to_text_l` / `_w` write before the terminator,
-given the already adjusted `flags`. -/
+given the already adjusted `flags`: a separator goes before every entry but the
+first (`count > 0`). -/
 def textBody (wide : Bool) (acl : Acl) (wantType flags : Nat) : List Ch :=
-  let sep : Ch := if hasFlag flags styleSeparatorComma then 44 else 10
-  let head : List (List Ch) :=
-    if wantType &&& typeAccess ≠ 0 then
-      [appendEntry wide false typeAccess tagUserObj flags [] (acl.mode &&& 0o700) (-1),
-       appendEntry wide false typeAccess tagGroupObj flags [] (acl.mode &&& 0o070) (-1),
-       appendEntry wide false typeAccess tagOther flags [] (acl.mode &&& 0o007) (-1)]
-    else []
-  let listed := acl.entries.filter (fun e => !skipped e wantType)
-  let body := listed.map fun e =>
-    let pfx := e.type = typeDefault ∧ hasFlag flags styleMarkDefault
-    let id : Int :=
-      if wide then (if hasFlag flags styleExtraId then e.id else -1)
-      else (if e.name = [] ∨ hasFlag flags styleExtraId then e.id else -1)
-    appendEntry wide pfx e.type e.tag flags e.name e.permset id
-  [sep].intercalate (head ++ body)
+  [sepChar flags].intercalate
+    ((if wantType &&& typeAccess ≠ 0 then headTexts wide acl.mode flags else []) ++
+     (listed acl wantType).map (entryText wide flags))
 
 /-- Flags as adjusted at the head of `archive_acl_to_text_*`. -/
 def textFlags (wantType flags : Nat) : Nat :=
